@@ -141,13 +141,39 @@ class SlimGrammar(Grammar):
         return out
 
 
+class SlimmerGrammar(Grammar):
+    """two constant value patterns, one induction-variable pattern, an effecting call; used for nesting depth 2"""
+
+    def leaves(self, loop_depth):
+        acc = self.accs[0]
+        out = [("L", acc, ("x", "y")), ("L", acc, ("y", "x"))]
+        if loop_depth >= 1:
+            out.append(("L", acc, ("i", "y")))
+        out.append(("CALL",))
+        return out
+
+
+def nesting(prog):
+    m = 0
+    for s in prog:
+        if s[0] in ("FOR", "CFOR", "WHILE", "FORI"):
+            m = max(m, 1 + nesting(s[1]))
+        elif s[0] in ("IF", "IFP", "IFR"):
+            m = max(m, 1 + max(nesting(s[1]), nesting(s[2]) if s[2] else 0))
+    return m
+
+
 _SLIM = {}
 
 
 def slim_programs(nodes, acc="acc1"):
     if (nodes, acc) not in _SLIM:
         g = SlimGrammar(accs=(acc,), calls=("CALL",), ifp=False, max_depth=1)
-        _SLIM[(nodes, acc)] = [p for p in g.seqs(nodes, 1, 0) if has_launch(p)]
+        flat = [p for p in g.seqs(nodes, 1, 0) if has_launch(p)]
+        # the same size at nesting depth exactly 2 (call / setup two regions deep: for{if{..}}, if{for{..}}, else branches), fewer leaves
+        g2 = SlimmerGrammar(accs=(acc,), calls=("CALL",), ifp=False, max_depth=2)
+        deep = [p for p in g2.seqs(nodes, 2, 0) if has_launch(p) and nesting(p) == 2]
+        _SLIM[(nodes, acc)] = flat + deep
     return _SLIM[(nodes, acc)]
 
 
